@@ -58,6 +58,11 @@ def synthetic(rng, text_hint, n_multi=60, maxlen=3, canonical=0, all_bytes=True,
         if len(b) > 2:
             words.append(b[1:])
             words.append([alpha[0]] + b[:2])
+    # whitespace-only tokens with control characters (members of the default whitespace slice, not of the string slice)
+    for w in (b"\t", b"\t\t", b" \t", b"\r\n", b"\n\n", b" \n", b"\r\r"):
+        if tuple(w) not in seen:
+            words.append(list(w))
+            seen.add(tuple(w))
     a = alpha[0]
     words.append([a] * 40)
     for sp in SPECIALS:
